@@ -428,13 +428,25 @@ func (s *sched) exec(ctx context.Context, r Req) (any, *plugins.Error) {
 		if !ov {
 			s.infl[ref.pl]--
 		}
-		return ev{"ev": "PEnd", "obj": ref.name, "n": c.n, "out": out, "rtag": tag, "ctxdone": ctxdone}
+		// concrete variants of one abstract outcome are logged as that outcome (the clauses and the model know the
+		// abstract alphabet only), with the variant next to it
+		abstract := map[string]string{"wrongptr": "wrongtype", "permwrap": "perm", "trwrap": "tr"}[out]
+		if abstract == "" {
+			abstract = out
+		}
+		return ev{"ev": "PEnd", "obj": ref.name, "n": c.n, "out": abstract, "variant": out, "rtag": tag, "ctxdone": ctxdone}
 	})
 	switch out {
 	case "ok":
 		return Resp{Tag: tag}, nil
 	case "perm":
 		return nil, &plugins.Error{Message: "perm " + tag, Permanent: true}
+	case "permwrap": // a permanent error that wraps a retryable cause: what the plugin returned governs
+		return nil, &plugins.Error{Message: "perm " + tag, Permanent: true, Wrapped: &plugins.Error{Message: "inner retryable cause"}}
+	case "trwrap": // a retryable error that wraps a permanent cause: still retryable
+		return nil, &plugins.Error{Message: "tr " + tag, Wrapped: &plugins.Error{Message: "inner permanent cause", Permanent: true}}
+	case "wrongptr": // a pointer to the declared response type is not the declared response type
+		return &Resp{Tag: tag}, nil
 	case "wrongtype":
 		return WrongResp{X: c.n}, nil
 	case "wrongtr": // a response of the wrong type together with a retryable error
